@@ -27,3 +27,16 @@ let run (input : Sexp.t) (impl : Sexp.t) : Verdict.t =
     nontrivial = total > 0 && nreads > 1 && straddle;
     cls = Printf.sprintf "msgs%d_%s" (min (List.length msgs) 4) (atom_of_err (snd mobs));
     model = sx_obs mobs; why = "" }
+
+(* ---- suite c18w: the same MQTT byte stream over TCP and, cut into binary messages, over WebSocket: by the theorem of
+   C18 the broker reads the concatenation, so its answers must be the same; the TCP answers are the expectation *)
+let run_c18w (input : Sexp.t) (impl : Sexp.t) : Verdict.t =
+  (match Sexp.field_opt "harness_error" impl with Some [e] -> failwith ("harness: " ^ Sexp.to_string e) | _ -> ());
+  let tcp = Sexp.field1 "tcp" impl and ws = Sexp.field1 "ws" impl in
+  let same = Sexp.to_string tcp = Sexp.to_string ws in
+  let complete = (match Sexp.field "end" ws with [Sexp.A "pingresp"] -> true | _ -> false) in
+  let ncuts = List.length (Sexp.field "cuts" input) in
+  { Verdict.agree = same; oracle = same && complete; kf = "-"; nontrivial = ncuts > 0;
+    cls = Printf.sprintf "v%s_cuts%s_%s" (Sexp.atom (Sexp.field1 "v" input)) (if ncuts = 0 then "0" else if ncuts < 10 then "lt10" else "ge10")
+        (if int_of_sx (Sexp.field1 "maxpkt" input) < 1000000 then "smallmax" else "defaultmax");
+    model = tcp; why = if same && complete then "" else "the broker's answers over WebSocket differ from its answers to the same bytes over TCP" }
